@@ -49,6 +49,12 @@ class World(object):
         def setup(db, connection):
             connection.execute('pragma synchronous = off')
             connection.set_trace_callback(W.on_sql)
+        # SQLite's statement trace also fires for the sub-programs of a statement (foreign key actions): only the first trace
+        # event after an `execute` of the recording connection is the statement itself
+        self.armed = False
+        def arm(ev):
+            if ev['call'] in ('execute', 'executemany'): W.armed = True
+        self.tr.before_call.append(arm)
         db.bind('sqlite', path, create_db=True, **self.tr.bind_kwargs())
         db.generate_mapping(create_tables=True)
         self.raw = sqlite3.connect(path, isolation_level=None)
@@ -61,6 +67,8 @@ class World(object):
 
     # -- statements ----------------------------------------------------------------------------------------------------
     def on_sql(self, text):
+        if not self.armed: return
+        self.armed = False
         t = ' '.join(text.split())
         m = re.match(r'INSERT INTO "(\w+)" \(([^)]*)\) VALUES \((-?\d+)', t)
         if m:
@@ -272,7 +280,12 @@ def run_real(W, case):
                 res['commit_log'] = [list(x) for x in W.log]
                 res['expected'] = list(W.expected)
                 res['status_end'] = [o._status_ for o in W.reg]
-    except Exception as e:            # an error at commit after a successful flush
+    except (core.OperationWithDeletedObjectError, HookScriptError) as e:
+        res['commit_hook_error'] = True       # a scripted hook of the flush inside commit() touched a deleted / unknown object
+    except core.TransactionError as e:
+        if 'Recursion depth limit' in str(e): res['commit_hook_error'] = True
+        else: res['commit_error'] = type(e).__name__ + ': ' + str(e)[:200]
+    except Exception as e:            # any other error at commit after a successful flush
         res['commit_error'] = type(e).__name__ + ': ' + str(e)[:200]
     res['db'] = {'G': dict(W.raw.execute('select id, a from "G"').fetchall()), 'I': dict(W.raw.execute('select id, a from "I"').fetchall())}
     return res
@@ -349,7 +362,9 @@ def check_case(ctx, W, case, pending):
         ctx.violation('flush() returned with changes still pending', inp, observed=res['final'], expected='nothing pending', key='flush:pending-left')
     # O3
     if res['error'] is None:
-        if res.get('commit_error'):
+        if res.get('commit_hook_error'):
+            ctx.count('commit-ended-by-hook-error')
+        elif res.get('commit_error'):
             ctx.violation('commit after the flush failed', inp, observed=res['commit_error'], expected='commit', key='commit-error')
         else:
             extra = once_oracle(res['commit_log'], True)
